@@ -602,6 +602,9 @@ Proof.
   symmetry. apply orb_true_iff. destruct Hr; [left; apply Z.leb_le|right; apply Z.ltb_lt]; assumption.
 Qed.
 
+Lemma lookup_no_panic : forall container lookup dot c, resolve_lookup container lookup dot <> Panic c.
+Proof. intros container lookup dot. apply ok_false_iff. apply resolve_lookup_ok. Qed.
+
 Lemma bind_ok : forall bb r k, ok bb r -> (forall v, ok bb (k v)) -> ok bb (bind r k).
 Proof. intros bb [v|c|] k H Hk; simpl; auto. Qed.
 
@@ -754,3 +757,131 @@ Proof.
 Qed.
 
 End Work.
+
+(* ------------------------------------------------------------------------------------------------ *)
+(* closed statements (re-exported by props/C04.v) *)
+
+Section Statements.
+
+Variable wclass : N -> N.
+Variable regex_submatch : text -> text -> option (list text).
+Variable ext_call : N -> list value -> res.
+Notation call_function := (call_function wclass regex_submatch ext_call).
+
+Lemma builtin_no_panic : forall f args c, exponent_free f = true -> call_function f args <> Panic c.
+Proof.
+  intros f args c Hf. unfold ExEval.call_function. rewrite call_not_foreach by (intros ->; discriminate).
+  apply ok_false_iff. apply call_simple_exponent_free. assumption.
+Qed.
+
+Lemma builtin_exponent_only : forall f args c, f <> FForEach -> (forall id, f <> FOther id) ->
+  call_function f args = Panic c -> c = PExponent.
+Proof.
+  intros f args c Hf Ho. unfold ExEval.call_function. rewrite call_not_foreach by assumption.
+  apply ok_true_iff. destruct (exponent_free f) eqn:E.
+  - apply ok_weaken. apply call_simple_exponent_free. assumption.
+  - destruct f; try discriminate E; unfold ExEval.call_simple.
+    + apply two_number_function_ok. apply mod_body_ok.
+    + apply min_max_args_ok. intros a [H1 _]. apply mean_body_ok; lia.
+    + apply one_number_function_ok. apply percent_body_ok.
+    + contradiction.
+    + exfalso. eapply Ho. reflexivity.
+Qed.
+
+Lemma word_no_panic : forall args c, call_function FWord args <> Panic c.
+Proof. intros. apply builtin_no_panic. reflexivity. Qed.
+Lemma word_slice_no_panic : forall args c, call_function FWordSlice args <> Panic c.
+Proof. intros. apply builtin_no_panic. reflexivity. Qed.
+Lemma field_no_panic : forall args c, call_function FField args <> Panic c.
+Proof. intros. apply builtin_no_panic. reflexivity. Qed.
+Lemma text_slice_no_panic : forall args c, call_function FTextSlice args <> Panic c.
+Proof. intros. apply builtin_no_panic. reflexivity. Qed.
+Lemma char_no_panic : forall args c, call_function FChar args <> Panic c.
+Proof. intros. apply builtin_no_panic. reflexivity. Qed.
+Lemma repeat_no_panic : forall args c, call_function FRepeat args <> Panic c.
+Proof. intros. apply builtin_no_panic. reflexivity. Qed.
+Lemma replace_no_panic : forall args c, call_function FReplace args <> Panic c.
+Proof. intros. apply builtin_no_panic. reflexivity. Qed.
+Lemma round_no_panic : forall args c, call_function FRound args <> Panic c.
+Proof. intros. apply builtin_no_panic. reflexivity. Qed.
+Lemma round_up_no_panic : forall args c, call_function FRoundUp args <> Panic c.
+Proof. intros. apply builtin_no_panic. reflexivity. Qed.
+Lemma round_down_no_panic : forall args c, call_function FRoundDown args <> Panic c.
+Proof. intros. apply builtin_no_panic. reflexivity. Qed.
+Lemma max_no_panic : forall args c, call_function FMax args <> Panic c.
+Proof. intros. apply builtin_no_panic. reflexivity. Qed.
+Lemma min_no_panic : forall args c, call_function FMin args <> Panic c.
+Proof. intros. apply builtin_no_panic. reflexivity. Qed.
+Lemma format_number_no_panic : forall args c, call_function FFormatNumber args <> Panic c.
+Proof. intros. apply builtin_no_panic. reflexivity. Qed.
+Lemma date_from_parts_no_panic : forall args c, call_function FDateFromParts args <> Panic c.
+Proof. intros. apply builtin_no_panic. reflexivity. Qed.
+Lemma time_from_parts_no_panic : forall args c, call_function FTimeFromParts args <> Panic c.
+Proof. intros. apply builtin_no_panic. reflexivity. Qed.
+Lemma datetime_add_no_panic : forall args c, call_function FDateTimeAdd args <> Panic c.
+Proof. intros. apply builtin_no_panic. reflexivity. Qed.
+Lemma array_no_panic : forall args c, call_function FArray args <> Panic c.
+Proof. intros. apply builtin_no_panic. reflexivity. Qed.
+Lemma object_no_panic : forall args c, call_function FObject args <> Panic c.
+Proof. intros. apply builtin_no_panic. reflexivity. Qed.
+Lemma extract_object_no_panic : forall args c, call_function FExtractObject args <> Panic c.
+Proof. intros. apply builtin_no_panic. reflexivity. Qed.
+Lemma regex_match_no_panic : forall args c, call_function FRegexMatch args <> Panic c.
+Proof. intros. apply builtin_no_panic. reflexivity. Qed.
+Lemma has_group_no_panic : forall args c, call_function FHasGroup args <> Panic c.
+Proof. intros. apply builtin_no_panic. reflexivity. Qed.
+Lemma mod_exponent_only : forall args c, call_function FMod args = Panic c -> c = PExponent.
+Proof. intros args c. apply builtin_exponent_only; [discriminate|intros id; discriminate]. Qed.
+Lemma mean_exponent_only : forall args c, call_function FMean args = Panic c -> c = PExponent.
+Proof. intros args c. apply builtin_exponent_only; [discriminate|intros id; discriminate]. Qed.
+Lemma percent_exponent_only : forall args c, call_function FPercent args = Panic c -> c = PExponent.
+Proof. intros args c. apply builtin_exponent_only; [discriminate|intros id; discriminate]. Qed.
+
+(* mod(x, 0): an error value (F4a) *)
+Lemma mod_zero_divisor : forall x y dx dy, to_number x = Ok dx -> to_number y = Ok dy -> mant dy = 0 ->
+  call_function FMod [x; y] = Ret VErr.
+Proof.
+  intros x y dx dy Hx Hy Hz. unfold ExEval.call_function. simpl.
+  unfold two_number_function, num_args, min_max_args, with_arg. simpl. rewrite Hx, Hy. apply mod_body_zero. assumption.
+Qed.
+
+(* foreach and every function value: panics of the called function are the only panics; fuel suffices *)
+Lemma call_function_exponent_only :
+  (forall id args c, ext_call id args = Panic c -> c = PExponent) ->
+  forall f args c, call_function f args = Panic c -> c = PExponent.
+Proof.
+  intros Hext f args. apply ok_true_iff. unfold ExEval.call_function. apply call_ok.
+  intros id a. apply ok_true_iff. apply Hext.
+Qed.
+
+Lemma eval_exponent_only : forall lookup_function,
+  (forall id args c, ext_call id args = Panic c -> c = PExponent) ->
+  forall ctx e c, eval wclass regex_submatch ext_call lookup_function ctx e = Panic c -> c = PExponent.
+Proof.
+  intros lf Hext ctx e. apply ok_true_iff. apply eval_ok. intros id a. apply ok_true_iff. apply Hext.
+Qed.
+
+(* a rejected argument count is an error value, for every wrapper-checked registration *)
+Lemma arity_rejected_is_error : forall min max f args,
+  ~ admitted min max (List.length args) -> min_max_args min max f args = Ret VErr.
+Proof. exact min_max_args_rejects. Qed.
+
+Lemma work_bound_statement : forall f args, numbers_sized args ->
+  (work f args <= work_constant * (args_size args + res_size (call_function f args) + 1))%N.
+Proof. apply work_bound. Qed.
+
+End Statements.
+
+(* the hypothesis of the two evaluator statements is satisfiable *)
+Example ext_hypothesis_satisfiable :
+  exists ext : N -> list value -> res, forall id args c, ext id args = Panic c -> c = PExponent.
+Proof. exists (fun _ _ => Ret VNil). intros; discriminate. Qed.
+
+Example numbers_sized_satisfiable : numbers_sized [VNum (Dec 15 (-1)); VNum (Dec 100 0)].
+Proof. apply (numbers_sized_numbers [Dec 15 (-1); Dec 100 0]). Qed.
+
+(* the exponent class is really reachable in the model: Decimal.Mul of two numbers whose exponents add up
+   beyond int32 (goflow: `@(0.1 ^ 2000000000 * 0.1 ^ 2000000000)`) *)
+Example mul_exponent_panics :
+  eval_binop OMul (VNum (Dec 1 (-2000000000))) (VNum (Dec 1 (-2000000000))) = Panic PExponent.
+Proof. vm_compute. reflexivity. Qed.
